@@ -119,6 +119,7 @@ def _failed(mod, pid, facts, runner):
     import trlint.builders as B
     B._SUMM.clear()
     tr = Tracer(facts)
+    runner.attach_inlined(facts, tr)
     rep = Report(pid, "FULL")
     try:
         mod.run(facts, tr, rep)
